@@ -80,4 +80,12 @@ def reachesBuilder : SVal → Bool
   | .seq _ | .tuple _ | .tupleStruct _ _ | .tupleVariant _ _ _ _ => true
   | _ => false
 
+/-- what the `Serializer` wrapper checks BEFORE it reaches the builder: a value that is not a collection behind newtype
+layers is refused with the wrapper's own error (the error `serializeWithG` returns for it, `Props/C19Fail.lean`) -/
+def serializerPre : SVal → R Unit
+  | .newtypeStruct _ v => serializerPre v
+  | .newtypeVariant _ _ _ v => serializerPre v
+  | .seq _ | .tuple _ | .tupleStruct _ _ | .tupleVariant _ _ _ _ => .ok ()
+  | x => fail s!"Serializer expects a sequence of records, not a single {x.kind}"
+
 end SaModel.Build
